@@ -887,6 +887,11 @@ func (c *cenv) Lookup(name string, old bool) (SV, bool) {
 		t := x.ghostGet(st, c.h, name, gi.Sort, gi)
 		return SV{T: t, Ty: gi.ValTy, Opt: gi.Opt, Arr: gi.Arr, Sort: gi.Sort}, true
 	}
+	if strings.HasPrefix(name, "$agg") {
+		if sv, ok := c.aggPseudo(name); ok {
+			return sv, true
+		}
+	}
 	switch name {
 	case "$hookFailed":
 		if st.hookFailed {
